@@ -17,6 +17,9 @@ import (
 // lock.OuterCancel. Run lives in its own thread. Caller operations:
 //   Rp = RLock(bg); cs; release (call the returned cancel) promptly
 //   Rl = RLock(bg); hold until the returned context is cancelled; release
+//   Rh = RLock under a parent context that thread "pc" cancels; keeps HOLDING
+//        for 3 grace periods whatever happens to its context, then releases
+//   Rk = like Rh under a background context
 //   Rx = like Rl, but under a parent context that thread "pc" cancels at an
 //        arbitrary instant
 //   W  = unlock := Lock(); cs; unlock()
@@ -52,7 +55,7 @@ type ocWriter struct {
 	unlocking bool
 }
 
-func mkOuter(threads [][]string, shutdown string) *mc.Exec {
+func mkOuter(threads [][]string, shutdown string, pcDelay time.Duration) *mc.Exec {
 	var (
 		o              *lock.OuterCancel
 		readers        []*ocReader
@@ -112,6 +115,17 @@ func mkOuter(threads [][]string, shutdown string) *mc.Exec {
 			}
 		}
 	}
+	// graceOver: some writer that could have cancelled r (not yet granted when
+	// r asked) requested at least a grace period ago.
+	graceOver := func(r *ocReader) bool {
+		now := mc.ModelNow()
+		for _, w := range writers {
+			if w.reqTime+ocGrace <= now && (!w.granted || w.grantStep > r.reqStep) {
+				return true
+			}
+		}
+		return false
+	}
 	onGrant := func(w *ocWriter) {
 		log("%s+", w.name)
 		for _, w2 := range writers {
@@ -134,6 +148,21 @@ func mkOuter(threads [][]string, shutdown string) *mc.Exec {
 				}
 				mc.Fail("writer granted while an earlier reader has neither released nor had its context cancelled\nwriter %s, reader %s; history=%v", w.name, r.name, hist)
 			}
+			if cause := context.Cause(r.rctx); cause != errOuterCause && r.parentCancelled != nil && *r.parentCancelled {
+				// Done only through its PARENT: the reader has not released and
+				// the lock has not (effectively) cancelled it with the configured
+				// cause. That does not count as released: the lock still owes it
+				// the grace period (its own cancel after the grace is a no-op on
+				// the already-cancelled context, so time is the only witness).
+				if shutdownCalled {
+					notes["W-beside-parent-cancelled-R-across-shutdown"] = true
+					continue
+				}
+				if !graceOver(r) {
+					mc.Fail("writer granted before the grace period while an earlier reader has not released and was not cancelled with the configured cause (only its parent context ended)\nwriter %s (requested t=%v) granted at t=%v, grace %v, reader %s cause %v; history=%v", w.name, w.reqTime, mc.ModelNow(), ocGrace, r.name, cause, hist)
+				}
+				continue
+			}
 			justify(r)
 		}
 	}
@@ -153,7 +182,7 @@ func mkOuter(threads [][]string, shutdown string) *mc.Exec {
 			flags := make([]*bool, len(script))
 			for k, op := range script {
 				parents[k] = context.Background()
-				if op == "Rx" {
+				if op == "Rx" || op == "Rh" {
 					ctx, cancel := mc.CtxWithCancel(context.Background())
 					f := new(bool)
 					parents[k], flags[k] = ctx, f
@@ -192,6 +221,13 @@ func mkOuter(threads [][]string, shutdown string) *mc.Exec {
 							if rctx.Err() != nil {
 								justify(r)
 							}
+						} else if op == "Rh" || op == "Rk" {
+							// keeps reading for 3 grace periods whatever happens
+							// to its context, then releases
+							mc.TimeSleep(3 * ocGrace)
+							if rctx.Err() != nil {
+								justify(r)
+							}
 						} else {
 							r.waiting = true
 							lazyOf[tname] = r
@@ -209,6 +245,9 @@ func mkOuter(threads [][]string, shutdown string) *mc.Exec {
 		}
 		if len(pcs) > 0 {
 			mc.GoNamed("pc", func() {
+				if pcDelay > 0 {
+					mc.TimeSleep(pcDelay)
+				}
 				for _, p := range pcs {
 					*p.flag = true
 					p.cancel()
@@ -273,6 +312,8 @@ func outerClass(name, shutdown string) string {
 	switch {
 	case shutdown != "":
 		return "lock.OuterCancel/with-shutdown"
+	case strings.Contains(name, "Rh"):
+		return "lock.OuterCancel/holding-reader-parent-cancelled"
 	case strings.Contains(name, "Rx"):
 		return "lock.OuterCancel/running-with-parent-cancellation"
 	}
@@ -298,7 +339,7 @@ func outerScenarios() []hx.Scenario {
 		sc := hx.Scenario{
 			Name: full, Class: outerClass(name, shutdown), ThoroughOnly: thorough,
 			Opts: mc.Options{Delay: delay, MinBound: bound, Bound: bound, AutoClock: true, Horizon: 20 * ocGrace, MaxSteps: 6000},
-			Mk:   func() *mc.Exec { return mkOuter(th, shutdown) },
+			Mk:   func() *mc.Exec { return mkOuter(th, shutdown, 0) },
 		}
 		if quickBound < bound {
 			sc.QuickBound, sc.QuickMin = hx.Ptr(quickBound), hx.Ptr(quickBound)
@@ -348,6 +389,47 @@ func outerScenarios() []hx.Scenario {
 					add(name, sd, true, false, 1, 1)
 				} else {
 					add(name, sd, false, false, 1, 2)
+				}
+			}
+		}
+	}
+	return out
+}
+
+// outerParentScenarios: a reader that keeps HOLDING the read lock while its
+// parent context is cancelled (Rh: holds for 3 grace periods whatever happens
+// to its context), optionally beside a plain reader (Rl lazy, Rk holding for 3
+// grace periods under a background context), and a writer arriving at 0,
+// grace/2 or grace. The parent is cancelled at t=0 (racing with everything),
+// at grace/2 or at 1.5 grace: before the writer arrives, while it waits, after
+// the grace. Timeline mode (time moves only at quiescence) and race mode.
+func outerParentScenarios() []hx.Scenario {
+	var out []hx.Scenario
+	for _, second := range []string{"", "Rl", "Rk"} {
+		for _, wr := range []string{"W", "Z;W", "Z;Z;W"} {
+			for _, pc := range []int{0, 5, 15} {
+				for _, tl := range []bool{true, false} {
+					name := "Rh"
+					if second != "" {
+						name += " | " + second
+					}
+					name += " | " + wr
+					th := parseScen(name)
+					pcDelay := time.Duration(pc) * ocUnit
+					full := fmt.Sprintf("outerpc %s pc@%d", name, pc)
+					if tl {
+						full += " tl"
+					}
+					sc := hx.Scenario{
+						Name: full, Class: outerClass(name, ""),
+						Opts: mc.Options{Delay: true, MinBound: 2, Bound: 2, AutoClock: true, ClockLast: tl, Horizon: 20 * ocGrace, MaxSteps: 6000},
+						Mk:   func() *mc.Exec { return mkOuter(th, "", pcDelay) },
+					}
+					if second != "" && !tl {
+						// 3 callers in race mode: ~2*10^4 schedules at bound 2
+						sc.QuickBound, sc.QuickMin = hx.Ptr(1), hx.Ptr(1)
+					}
+					out = append(out, sc)
 				}
 			}
 		}
